@@ -265,7 +265,7 @@ theorem serDoc_all (fb : Bool) : ∀ (qs : List (Str × Bool)) (st : Store) (m :
 theorem QRes.toM' {st : Store} {u : Str} {r : Store × Mgr × Except Err QN} (h : QRes st u r) :
     MRes st (r.1, r.2.1) := ⟨h.reach, h.cache, h.scache⟩
 
-theorem strictSeq_all : ∀ (us : List Str) (st : Store) (m : Mgr) (acc : List QN),
+theorem strictSeq_all : ∀ (us : List Str) (st : Store) (m : Mgr) (acc : List (Str × QN)),
     CacheOK m.cache → CacheOK m.scache →
     MRes st ((strictSeq us st m acc).1, (strictSeq us st m acc).2.1)
   | [], st, m, acc, hc, hs => ⟨Reach.refl _, hc, hs⟩
@@ -276,7 +276,7 @@ theorem strictSeq_all : ∀ (us : List Str) (st : Store) (m : Mgr) (acc : List Q
     · exact h0
     · next a _ =>
       have ih := strictSeq_all r (Mgr.computeQnameStrict st m u true).1 (Mgr.computeQnameStrict st m u true).2.1
-        (acc ++ [a]) h0.cache h0.scache
+        (acc ++ [(u, a)]) h0.cache h0.scache
       exact ⟨h0.reach.trans ih.reach, ih.cache, ih.scache⟩
 
 theorem serXml_all (preds stmts : List Str) (st : Store) (m : Mgr)
